@@ -14,7 +14,7 @@ ASSUMPTIONS = [
     "that libsodium's crypto_box really detects every ciphertext modification (Poly1305) is outside solver reach; it is the stated contract of the stub",
     "inner serializer is the real json on concrete application values; tampering = XOR of one payload octet at a free position with a free non-zero mask",
 ]
-BOUNDS = {"quick": "4 directions x 5 keyring layouts (default string key, per-prefix key, key pair, originator-only + responder-only pair, no key on the receiving side) x faults {none, tampered octet (free position and mask), wrong key, envelope URI swapped to another URI under the same key}; progressive results", "thorough": "same with two payload shapes and 3 URIs"}
+BOUNDS = {"quick": "4 directions x 5 keyring layouts (default string key, per-prefix key, key pair, originator-only + responder-only pair, no key on the receiving side) x faults {none, tampered octet (free position and mask), wrong key, envelope URI swapped to another URI under the same key}; progressive results", "thorough": "same with 4 payload shapes (args+kwargs, args only, kwargs only, no payload)"}
 EXPECT_COVERS = ["ok:event", "ok:call", "ok:error", "ok:progress", "fault:tamper", "fault:wrongkey", "fault:uriswap", "fault:nokey"]
 BUDGET = {"quick": dict(wall_s=200, max_paths=20000, diff_samples=4), "thorough": dict(wall_s=1200)}
 
@@ -98,7 +98,7 @@ def _tamper(sx, payload):
     return mkbytes(items)
 
 
-def scenario(sx, direction, layout, fault):
+def scenario(sx, direction, layout, fault, shape=0):
     from autobahn.wamp import message, types
     from autobahn.wamp.exception import ApplicationError
     _install_nacl_model(sx)
@@ -113,8 +113,8 @@ def scenario(sx, direction, layout, fault):
         resp.set_payload_codec(kr_r)
     ENC = (ApplicationError.ENC_NO_PAYLOAD_CODEC, ApplicationError.ENC_TRUSTED_URI_MISMATCH, ApplicationError.ENC_DECRYPT_ERROR)
     URI, URI2 = "com.myapp.thing", "com.myapp.other"
-    ARGS, KWARGS = [1, "two", [3]], {"k": {"n": 1}}
-    info = dict(direction=direction, layout=layout, fault=fault)
+    ARGS, KWARGS = [([1, "two", [3]], {"k": {"n": 1}}), ([5], {}), ([], {"only": "kw"}), ([], {})][shape]
+    info = dict(direction=direction, layout=layout, fault=fault, shape=shape)
     expect_ok = fault == "none" and kr_r is not None
 
     def clear_free(m):
@@ -248,4 +248,7 @@ def units(tier):
                 if direction in ("result", "error", "progress") and layout == "receiver-no-key":
                     continue
                 U.append(("%s/%s/%s" % (direction, layout, fault), "scenario", dict(direction=direction, layout=layout, fault=fault)))
+                if tier != "quick":
+                    for shape in (1, 2, 3):
+                        U.append(("%s/%s/%s/shape%d" % (direction, layout, fault, shape), "scenario", dict(direction=direction, layout=layout, fault=fault, shape=shape)))
     return U
